@@ -805,3 +805,147 @@ Proof.
     + intros i b'. apply Ho.
     + apply zsum_nonneg. apply Forall_map. apply Forall_forall. intros; apply total_nonneg.
 Qed.
+
+(* ================================================================ the statements of C02, on the model *)
+Definition strip_rep (node : tnode) : tnode :=
+  match node with
+  | TElem a b c _ s els => TElem a b c None s els
+  | TGroup els _ => TGroup els None
+  end.
+
+Definition set_rep (r : rep) (n : anode) : anode :=
+  match n with ANode nm v _ at_ ch sc => ANode nm v (Some r) at_ ch sc end.
+(* the converter records on each copy which repetition it is (AbbreviationNode.repeat) *)
+Definition tag_copy (node : tnode) (r : rep) (items : list anode) : list anode :=
+  match node with
+  | TGroup _ _ => attach_repeater items r
+  | TElem _ _ _ _ _ _ => match items with x :: rest => set_rep r x :: rest | [] => [] end
+  end.
+
+(* copy number i+1 of n of [node] = the unit itself, written without its `*n`, converted under the
+   repeater stack (n, i) :: enclosing *)
+Lemma copy_is_unit env node n i reps :
+  once_u env node (Some (mkRep n i false)) (mkRep n i false :: reps) =
+  tag_copy node (mkRep n i false) (unroll env (mkRep n i false :: reps) (strip_rep node)).
+Proof.
+  rewrite unroll_unfold.
+  destruct node as [a at_ v r s els|els r]; cbn [strip_rep node_rep once_u tag_copy]; [|reflexivity].
+  unfold leaf_items. destruct (text_only_of _ _ _); reflexivity.
+Qed.
+
+(* convert_count: X*N with enough budget gives exactly N consecutive copies, copy i (0-based here)
+   converted with counter (N, i); the budget drops by the number of copies completed.
+   N = written count, `*0` counting as 1. *)
+Theorem convert_count env node r0 st :
+  clean_node node = true -> node_rep node = Some r0 ->
+  total node <= cs_guard st ->
+  let n := written_count r0 in
+  conv_stmt env node st =
+  Ok (flat_map (fun i => tag_copy node (mkRep n i false)
+                           (unroll env (mkRep n i false :: cs_repeaters st) (strip_rep node)))
+               (nseq (N.to_nat n) 0%N),
+      set_guard st (cs_guard st - total node)).
+Proof.
+  intros Hc Hr Hb n. rewrite (conv_stmt_spec env node Hc st).
+  rewrite unroll_b_enough by exact Hb. cbn [fst snd]. rewrite unroll_unfold, Hr. cbv zeta.
+  f_equal. f_equal. apply flat_map_ext. intros i. apply copy_is_unit.
+Qed.
+
+Lemma nseq_length k i : length (nseq k i) = k.
+Proof. revert i. induction k as [|k IH]; intros i; cbn [nseq length]; [reflexivity|]. rewrite IH. reflexivity. Qed.
+Lemma nseq_nth k : forall i j, (j < k)%nat -> nth_error (nseq k i) j = Some (i + N.of_nat j)%N.
+Proof.
+  induction k as [|k IH]; intros i j Hj; [lia|]. destruct j as [|j]; cbn [nseq nth_error].
+  - f_equal. lia.
+  - rewrite IH by lia. f_equal. lia.
+Qed.
+
+(* a unit without repeater is converted once, under the stack of its surroundings: the counter in
+   force is that of the nearest enclosing repeated unit *)
+Theorem convert_unrepeated env node st :
+  clean_node node = true -> node_rep node = None -> total node <= cs_guard st ->
+  conv_stmt env node st = Ok (once_u env node None (cs_repeaters st), set_guard st (cs_guard st - total node)).
+Proof.
+  intros Hc Hr Hb. rewrite (conv_stmt_spec env node Hc st).
+  rewrite unroll_b_enough by exact Hb. cbn [fst snd]. rewrite unroll_unfold, Hr. reflexivity.
+Qed.
+
+(* guard_enough / guard_step *)
+Theorem guard_enough env node st :
+  clean_node node = true -> total node <= cs_guard st ->
+  conv_stmt env node st = Ok (unroll env (cs_repeaters st) node, set_guard st (cs_guard st - total node)).
+Proof.
+  intros Hc Hb. rewrite (conv_stmt_spec env node Hc st). rewrite unroll_b_enough by exact Hb. reflexivity.
+Qed.
+
+Theorem guard_bounds env node st items st' :
+  clean_node node = true -> conv_stmt env node st = Ok (items, st') ->
+  cs_guard st - total node <= cs_guard st' <= cs_guard st /\
+  cs_repeaters st' = cs_repeaters st.
+Proof.
+  intros Hc H. rewrite (conv_stmt_spec env node Hc st) in H. inversion H; subst.
+  cbn [set_guard cs_guard cs_repeaters]. split; [split|reflexivity]; [apply unroll_b_ge|apply unroll_b_le].
+Qed.
+
+(* guard_exhausted: budget used up: every repeater, running or met later, yields just one copy *)
+Theorem guard_exhausted env node st :
+  clean_node node = true -> cs_guard st <= 0 ->
+  conv_stmt env node st = Ok (unroll_one env (cs_repeaters st) node, set_guard st (cs_guard st - repeaters node)).
+Proof.
+  intros Hc Hb. rewrite (conv_stmt_spec env node Hc st). rewrite unroll_b_exhausted by exact Hb. reflexivity.
+Qed.
+
+(* ---- the whole converter *)
+Definition budget_of (max_repeat : option N) : Z :=
+  match max_repeat with Some m => Z.of_N m | None => 1000000 end.
+Definition total_list (l : list tnode) : Z := zsum (map total l).
+
+Theorem convert_limit_full env max_repeat root :
+  ce_text env = WNone -> forallb clean_node root = true ->
+  convert env max_repeat root = Ok (fst (list_b (unroll_b env []) root (budget_of max_repeat))).
+Proof.
+  intros Ht Hc. unfold convert. rewrite conv_list_list_conv.
+  rewrite list_conv_spec.
+  - cbn [bind cs_repeaters cs_guard]. rewrite Ht. reflexivity.
+  - apply (Forall_forallb_and clean_node); [|exact Hc]. apply Forall_forall. intros c _ H. apply conv_stmt_spec. exact H.
+Qed.
+
+Theorem convert_enough env max_repeat root :
+  ce_text env = WNone -> forallb clean_node root = true ->
+  total_list root <= budget_of max_repeat ->
+  convert env max_repeat root = Ok (flat_map (unroll env []) root).
+Proof.
+  intros Ht Hc Hb. rewrite convert_limit_full by assumption.
+  rewrite list_b_enough; [reflexivity| |exact Hb].
+  apply Forall_forall. intros c _ reps b. apply unroll_b_enough.
+Qed.
+
+(* ---- which counter a `$` run sees *)
+Lemma tok_str_numbering env reps t size reverse base :
+  tk t = TRepeaterNumber size reverse base 0 ->
+  tok_str env reps t = pad (N.to_nat size) (str_of_Z (counter_in_force reverse base reps)).
+Proof.
+  intros Ht. unfold tok_str. rewrite (numbering_value env t size reverse base (st_of reps) Ht). reflexivity.
+Qed.
+
+(* inside copy i+1 of n the run prints start+i, or start+n-(i+1) when reversed *)
+Corollary numbering_in_copy env reps t size reverse base n i :
+  tk t = TRepeaterNumber size reverse base 0 ->
+  tok_str env (mkRep n i false :: reps) t =
+  pad (N.to_nat size) (str_of_Z (counter_value reverse base (i + 1) n)).
+Proof. intros Ht. rewrite (tok_str_numbering _ _ _ _ _ _ Ht). reflexivity. Qed.
+
+Corollary numbering_outside env t size reverse base :
+  tk t = TRepeaterNumber size reverse base 0 ->
+  tok_str env [] t = pad (N.to_nat size) [c_0 + 1]%N.
+Proof. intros Ht. rewrite (tok_str_numbering _ _ _ _ _ _ Ht). reflexivity. Qed.
+
+(* names, values and attributes are the concatenation of their tokens' texts *)
+Lemma name_str_cons env reps t r :
+  clean_toks (t :: r) = true -> name_str env reps (t :: r) = tok_str env reps t ++ name_str env reps r.
+Proof.
+  intros H. cbn [clean_toks forallb] in H. apply andb_prop in H. destruct H as [Ht Hr].
+  unfold name_str at 1. cbn [stringify_name].
+  rewrite (stringify_clean env t (st_of reps) Ht). rewrite (stringify_name_clean env r (st_of reps) Hr).
+  reflexivity.
+Qed.
